@@ -248,10 +248,13 @@ func runParser(suite string, opt int, input []byte) (errs []perr) {
 func matches(input []byte, e *parse.Error) []int {
 	m := []int{}
 	for k := 0; k <= len(input); k++ {
-		l, c, ctx := parse.Position(bytes.NewReader(input), k)
-		if l == e.Line && c == e.Column && ctx == e.Context {
-			m = append(m, k)
-		}
+		func() {
+			defer func() { recover() }() // a panic of Position is observed (and judged) where Position itself is the subject
+			l, c, ctx := parse.Position(bytes.NewReader(input), k)
+			if l == e.Line && c == e.Column && ctx == e.Context {
+				m = append(m, k)
+			}
+		}()
 	}
 	return m
 }
